@@ -470,6 +470,68 @@ func c04Check(c *Ctx, files []c04File, fm map[string]string, le, tag string) {
 			checkRange("workspaceSymbol", ws.Rel(s.Location.URI), s.Location.Range, want, "symbol "+s.Name)
 		}
 	}
+	// an edit as a multi-cursor rename makes it: one didChange notification whose changes replace every occurrence of a
+	// local of the first file by a longer name, bottom occurrence first. Positions are those of the client's new text.
+	{
+		f := &files[0]
+		uri := ws.URI(f.Rel)
+		old, nw := "f0alpha", "f0alphaRenamedInPlace"
+		t := NewRText(f.Text)
+		var toks []*Tok
+		for _, tk := range RLex([]byte(f.Text)).Toks {
+			if tk.K == TName && tk.Val == old {
+				toks = append(toks, tk)
+			}
+		}
+		var chs []Change
+		for i := len(toks) - 1; i >= 0; i-- {
+			rg := Range{t.PosAt(toks[i].Off), t.PosAt(toks[i].End)}
+			chs = append(chs, Change{Range: &rg, Text: nw})
+		}
+		for _, ch := range chs {
+			t.Splice(*ch.Range, ch.Text)
+		}
+		if len(chs) >= 2 {
+			srv.DidChange(uri, 2, chs)
+			f.Text = t.String()
+			fm[f.Rel] = f.Text
+			c.Count("multi_change_edits", 1)
+			src := []byte(f.Text)
+			for _, tk := range RLex(src).Toks {
+				if tk.K != TName || tk.Val != nw {
+					continue
+				}
+				p := posAt(src, tk.Off)
+				ctx := fmt.Sprintf("query on %s at %v after a multi-change edit", tk.Val, p)
+				locs, _, err := srv.Definition(uri, p.Line, p.Character)
+				if err != nil {
+					fail()
+					return
+				}
+				for _, l := range locs {
+					checkRange("definition-after-multi-change-edit", ws.Rel(l.URI), l.Range, nw, ctx)
+				}
+				hl, _, err := srv.Highlight(uri, p.Line, p.Character)
+				if err != nil {
+					fail()
+					return
+				}
+				for _, h := range hl {
+					checkRange("highlight-after-multi-change-edit", f.Rel, h.Range, nw, ctx)
+				}
+			}
+			syms, _, err := srv.DocumentSymbol(uri)
+			if err != nil {
+				fail()
+				return
+			}
+			for _, sy := range syms {
+				if strings.HasPrefix(sy.Name, "f0") && identRe.MatchString(sy.Name) {
+					checkRange("documentSymbol-after-multi-change-edit", f.Rel, sy.SelectionRange, sy.Name, "symbol "+sy.Name)
+				}
+			}
+		}
+	}
 }
 
 func posLE(a, b Position) bool {
